@@ -137,20 +137,64 @@ theorem Cpl.keep {p p' : WP} {e e' : Env} {fk : List Nat} (h : Cpl p e fk) (h1 :
   obtain ⟨a, g, hw, ha, hd⟩ := h
   exact ⟨a, by rw [h1, h4]; exact g, by rw [h2]; exact hw, by rw [h3]; exact ha, by rw [h1, h5]; exact hd⟩
 
+/-- (progress, safety form) a slot with queued jobs has a job booked in flight — or its worker is dead (the
+hand-over failed; the replacement will take the queue head) -/
+def Prog (p : WP) (e : Env) : Prop :=
+  p.mq ≠ [] → p.curr ≠ [] ∨ ∃ a, e.getActor p.actor = some a ∧ a.alive = false
+
+theorem Prog.of_curr {p : WP} {e : Env} (h : p.curr ≠ []) : Prog p e := fun _ => Or.inl h
+theorem Prog.of_mq {p : WP} {e : Env} (h : p.mq = []) : Prog p e := fun hm => absurd h hm
+
+theorem Prog.keep {p p' : WP} {e e' : Env} (h : Prog p e) (h1 : p'.actor = p.actor) (h3 : p'.curr = p.curr)
+    (hmq : p'.mq ≠ [] → p.mq ≠ [])
+    (h4 : ∀ a, e.getActor p.actor = some a → a.alive = false → ∃ a', e'.getActor p.actor = some a' ∧ a'.alive = false) :
+    Prog p' e' := by
+  intro hm
+  rcases h (hmq hm) with hc | ⟨a, g, hd⟩
+  · exact Or.inl (by rw [h3]; exact hc)
+  · right; rw [h1]; exact h4 a g hd
+
+/-- a dead actor stays dead -/
+theorem EnvStep.dead {aid : Nat} {e e' : Env} (s : EnvStep aid e e') (b : Nat) (a : Actor) (g : e.getActor b = some a)
+    (hd : a.alive = false) : ∃ a', e'.getActor b = some a' ∧ a'.alive = false := by
+  by_cases hb : b = aid
+  · subst hb
+    have := s.self
+    rw [g] at this
+    cases hx : e'.getActor b with
+    | none => rw [hx] at this; cases this
+    | some x => exact ⟨x, rfl, (s.alive a x g hx).trans hd⟩
+  · exact ⟨a, by rw [s.other b hb]; exact g, hd⟩
+
 /-- result of a `WorkerProperties` function on slot `p` -/
 structure SRes (p : WP) (e : Env) (p' : WP) (e' : Env) (fk : List Nat) : Prop where
   actor : p'.actor = p.actor
   wid : p'.wid = p.wid
   cpl : Cpl p' e' fk
   env : EnvStep p.actor e e'
+  prog : Prog p e → Prog p' e'
 
 theorem sres_keep {p p' : WP} {e e' : Env} {fk : List Nat} (h : Cpl p e fk) (h1 : p'.actor = p.actor)
-    (h2 : p'.wid = p.wid) (h3 : p'.curr = p.curr) (h4 : EnvEq e e') : SRes p e p' e' fk :=
-  ⟨h1, h2, h.keep h1 h2 h3 (h4.getActor _) h4.sup, h4.step _⟩
+    (h2 : p'.wid = p.wid) (h3 : p'.curr = p.curr) (h4 : EnvEq e e') (hmq : p'.mq ≠ [] → p.mq ≠ []) : SRes p e p' e' fk :=
+  ⟨h1, h2, h.keep h1 h2 h3 (h4.getActor _) h4.sup, h4.step _,
+    fun hp => hp.keep h1 h3 hmq (fun a g d => ⟨a, by rw [h4.getActor]; exact g, d⟩)⟩
+
+/-- the slot keeps a job booked in flight: nothing to show for progress -/
+theorem sres_busy {p p' : WP} {e e' : Env} {fk : List Nat} (h : Cpl p e fk) (h1 : p'.actor = p.actor)
+    (h2 : p'.wid = p.wid) (h3 : p'.curr = p.curr) (h4 : EnvEq e e') (hb : p.curr ≠ []) : SRes p e p' e' fk :=
+  ⟨h1, h2, h.keep h1 h2 h3 (h4.getActor _) h4.sup, h4.step _, fun _ => Prog.of_curr (by rw [h3]; exact hb)⟩
 
 theorem SRes.trans {p p1 p2 : WP} {e e1 e2 : Env} {fk fk' : List Nat} (h1 : SRes p e p1 e1 fk) (h2 : SRes p1 e1 p2 e2 fk') :
     SRes p e p2 e2 fk' :=
-  ⟨h2.actor.trans h1.actor, h2.wid.trans h1.wid, h2.cpl, h1.env.trans (by rw [← h1.actor]; exact h2.env)⟩
+  ⟨h2.actor.trans h1.actor, h2.wid.trans h1.wid, h2.cpl, h1.env.trans (by rw [← h1.actor]; exact h2.env),
+    fun hp => h2.prog (h1.prog hp)⟩
+
+theorem getNext_mq_ne (p : WP) (e : Env) (h : (p.getNext e).2.1.mq ≠ []) : p.mq ≠ [] := by
+  intro hc
+  have := getNext_length p e
+  rw [hc] at this
+  simp only [List.length_nil, Nat.le_zero_eq, Nat.add_eq_zero_iff] at this
+  exact h (List.eq_nil_of_length_eq_zero this.1)
 
 theorem heldJobs_append_mailbox (a : Actor) (j : Job) :
     ({ a with mailbox := a.mailbox ++ [j] } : Actor).heldJobs = a.heldJobs ++ [j] := by
@@ -178,7 +222,7 @@ theorem sres_dispatchJob (p : WP) (e : Env) (j : Job) (fk : List Nat) (hc : p.cu
     generalize ha' : ({ a with mailbox := a.mailbox ++ [j] } : Actor) = a'
     have haid' : a'.aid = p.actor := by subst ha'; exact haid
     have g' : e.getActor a'.aid = some a := by rw [haid']; exact g
-    refine ⟨rfl, rfl, ⟨a', ?_, ?_, ?_, ?_⟩, ?_⟩
+    refine ⟨rfl, rfl, ⟨a', ?_, ?_, ?_, ?_⟩, ?_, fun _ => Prog.of_curr (currInsert_ne_nil _ _ _)⟩
     · have := getActor_setActor_self e a a' g'
       rw [haid'] at this; exact this
     · subst ha'; exact hw
@@ -194,7 +238,23 @@ theorem sres_dispatchJob (p : WP) (e : Env) (j : Job) (fk : List Nat) (hc : p.cu
   · have hal' : a.alive = false := by simpa using hal
     have hn : (!a.alive) = true := by rw [hal']; rfl
     rw [if_pos hn]
-    exact sres_keep ⟨a, g, hw, ha, hd⟩ rfl rfl rfl (EnvEq.refl e)
+    have hcp : Cpl p e fk := ⟨a, g, hw, ha, hd⟩
+    exact ⟨rfl, rfl, hcp.keep rfl rfl rfl rfl rfl, EnvStep.refl _ _, fun _ _ => Or.inr ⟨a, g, hal'⟩⟩
+
+/-- after `dispatch_job` the slot has a job booked in flight, or its worker is dead -/
+theorem prog_dispatchJob (p : WP) (e : Env) (j : Job) (fk : List Nat) (h : Cpl p e fk) :
+    Prog (p.dispatchJob e j).1 (p.dispatchJob e j).2 := by
+  obtain ⟨a, g, _, _, _⟩ := h
+  unfold WP.dispatchJob Env.cast
+  simp only [g]
+  by_cases hal : a.alive = true
+  · have hn : ¬ ((!a.alive) = true) := by rw [hal]; exact Bool.false_ne_true
+    rw [if_neg hn]
+    exact Prog.of_curr (currInsert_ne_nil _ _ _)
+  · have hal' : a.alive = false := by simpa using hal
+    have hn : (!a.alive) = true := by rw [hal']; rfl
+    rw [if_pos hn]
+    exact fun _ => Or.inr ⟨a, g, hal'⟩
 
 theorem shedOldest_envEq (limit fuel : Nat) (p : WP) (e : Env) : EnvEq e (shedOldest limit fuel p e).2 := by
   induction fuel generalizing p e with
@@ -234,8 +294,8 @@ theorem sres_enqueueJob (p : WP) (e : Env) (j : Job) (fk : List Nat) (h : Cpl p 
     SRes p e (p.enqueueJob e j).1 (p.enqueueJob e j).2 fk := by
   unfold WP.enqueueJob
   split
-  · exact sres_keep h rfl rfl rfl ((envEq_discard e _ _ j).trans (envEq_reject _ j))
-  · have h0 : SRes p e (p.track j.key) (e.accept j) fk := sres_keep h rfl rfl rfl (envEq_accept e j)
+  · exact sres_keep h rfl rfl rfl ((envEq_discard e _ _ j).trans (envEq_reject _ j)) id
+  · have h0 : SRes p e (p.track j.key) (e.accept j) fk := sres_keep h rfl rfl rfl (envEq_accept e j) id
     refine h0.trans ?_
     generalize p.track j.key = p1 at h0 ⊢
     generalize e.accept j = e1 at h0 ⊢
@@ -254,20 +314,81 @@ theorem sres_enqueueJob (p : WP) (e : Env) (j : Job) (fk : List Nat) (h : Cpl p 
         have hc2 : p2.curr = p1.curr := by have := getNext_curr p1 e1; rw [hg] at this; exact this
         rw [hg] at hn
         simp only at hn
-        have s2 : SRes p1 e1 p2 e2 fk := sres_keep hc1 ha2 hw2 hc2 hn
+        have hmq2 : p2.mq ≠ [] → p1.mq ≠ [] := by
+          have := getNext_mq_ne p1 e1; rw [hg] at this; exact this
+        have s2 : SRes p1 e1 p2 e2 fk := sres_keep hc1 ha2 hw2 hc2 hn hmq2
         cases r with
         | none =>
           simp only
           exact s2.trans (sres_dispatchJob p2 e2 j1 fk (by rw [hc2]; exact hcurr) s2.cpl)
         | some older =>
           simp only
-          have s3 : SRes p2 e2 { p2 with mq := p2.mq ++ [j1] } e2 fk := sres_keep s2.cpl rfl rfl rfl (EnvEq.refl _)
-          exact (s2.trans s3).trans (sres_dispatchJob _ e2 older fk (by simp only; rw [hc2]; exact hcurr) s3.cpl)
-    · simp only
+          have c3 : Cpl { p2 with mq := p2.mq ++ [j1] } e2 fk := s2.cpl.keep rfl rfl rfl rfl rfl
+          have sd := sres_dispatchJob { p2 with mq := p2.mq ++ [j1] } e2 older fk (by simp only; rw [hc2]; exact hcurr) c3
+          have pd := prog_dispatchJob { p2 with mq := p2.mq ++ [j1] } e2 older fk c3
+          exact s2.trans ⟨sd.actor, sd.wid, sd.cpl, sd.env, fun _ => pd⟩
+    · rename_i hne
+      have hb : p1.curr ≠ [] := by
+        intro hc; rw [hc] at hne; simp at hne
+      simp only
       split
-      · exact sres_keep hc1 (by rw [shedOldest_actor]) (by rw [shedOldest_wid]) (by rw [shedOldest_curr])
-          (shedOldest_envEq _ _ _ _)
-      · exact sres_keep hc1 rfl rfl rfl (EnvEq.refl _)
+      · exact sres_busy hc1 (by rw [shedOldest_actor]) (by rw [shedOldest_wid]) (by rw [shedOldest_curr])
+          (shedOldest_envEq _ _ _ _) hb
+      · exact sres_busy hc1 rfl rfl rfl (EnvEq.refl _) hb
+
+/-- the tail shared by `worker_complete` and `replace_worker`: hand the next queued job over -/
+def WP.nextJob (p : WP) (e : Env) : WP × Env :=
+  match p.getNext e with
+  | (some j, p, e) => p.dispatchJob e j
+  | (none, p, e) => (p, e)
+
+/-- afterwards the slot's queue is empty, or a job is booked in flight, or the worker is dead -/
+theorem prog_nextJob (p0 : WP) (e : Env) (fk : List Nat) (c0 : Cpl p0 e fk) : Prog (p0.nextJob e).1 (p0.nextJob e).2 := by
+  unfold WP.nextJob
+  have hn := envEq_getNext p0 e
+  have hnil := getNextNonExpired_none_nil (hd := p0.handler) p0.mq p0.pending e
+  cases hg : p0.getNext e with
+  | mk r pe =>
+    obtain ⟨p2, e2⟩ := pe
+    have ha2 : p2.actor = p0.actor := by have := getNext_actor p0 e; rw [hg] at this; exact this
+    have hw2 : p2.wid = p0.wid := by have := getNext_wid' p0 e; rw [hg] at this; exact this
+    have hc2 : p2.curr = p0.curr := by have := getNext_curr p0 e; rw [hg] at this; exact this
+    rw [hg] at hn
+    simp only at hn
+    have c2 : Cpl p2 e2 fk := c0.keep ha2 hw2 hc2 (hn.getActor _) hn.sup
+    cases r with
+    | none =>
+      simp only
+      apply Prog.of_mq
+      have h1 : (p0.getNext e).1 = none := by rw [hg]
+      have h2 : (p0.getNext e).2.1.mq = [] := hnil h1
+      rw [hg] at h2; exact h2
+    | some j => exact prog_dispatchJob p2 e2 j fk c2
+
+theorem sres_nextJob (p0 : WP) (e : Env) (fk : List Nat) (hc0 : p0.curr = []) (c0 : Cpl p0 e fk) :
+    SRes p0 e (p0.nextJob e).1 (p0.nextJob e).2 fk := by
+  have hp := prog_nextJob p0 e fk c0
+  unfold WP.nextJob at hp ⊢
+  have hn := envEq_getNext p0 e
+  cases hg : p0.getNext e with
+  | mk r pe =>
+    obtain ⟨p2, e2⟩ := pe
+    have ha2 : p2.actor = p0.actor := by have := getNext_actor p0 e; rw [hg] at this; exact this
+    have hw2 : p2.wid = p0.wid := by have := getNext_wid' p0 e; rw [hg] at this; exact this
+    have hc2 : p2.curr = p0.curr := by have := getNext_curr p0 e; rw [hg] at this; exact this
+    have hmq2 : p2.mq ≠ [] → p0.mq ≠ [] := by have := getNext_mq_ne p0 e; rw [hg] at this; exact this
+    rw [hg] at hn hp
+    simp only at hn hp
+    have s2 : SRes p0 e p2 e2 fk := sres_keep c0 ha2 hw2 hc2 hn hmq2
+    cases r with
+    | none => exact ⟨s2.actor, s2.wid, s2.cpl, s2.env, fun _ => hp⟩
+    | some j =>
+      have sd := sres_dispatchJob p2 e2 j fk (by rw [hc2]; exact hc0) s2.cpl
+      exact s2.trans sd
+
+theorem replaceWorker_eq (p : WP) (e : Env) (naid : Nat) :
+    p.replaceWorker e naid =
+      WP.nextJob { p with curr := [], pending := p.curr.foldl (fun acc x => acc.erase x.1) p.pending, actor := naid } e := rfl
 
 /-- `worker_complete` for a slot whose own `Finished(key)` report is being handled -/
 theorem sres_workerComplete (p : WP) (e : Env) (key : Nat) (fk : List Nat) (hone : p.curr.length ≤ 1)
@@ -311,25 +432,16 @@ theorem sres_workerComplete (p : WP) (e : Env) (key : Nat) (fk : List Nat) (hone
     refine ⟨a, by subst hp0; exact g, by subst hp0; exact hw, ?_, ?_⟩
     · intro _; exact ⟨hs, by rw [hc0, h1, h2]; rfl⟩
     · intro hx; rw [hal] at hx; cases hx
-  have s0 : SRes p e p0 e fk := ⟨by subst hp0; rfl, by subst hp0; rfl, c0, EnvStep.refl _ _⟩
-  refine s0.trans ?_
-  have hn := envEq_getNext p0 e
-  cases hg : p0.getNext e with
-  | mk r pe =>
-    obtain ⟨p2, e2⟩ := pe
-    have ha2 : p2.actor = p0.actor := by have := getNext_actor p0 e; rw [hg] at this; exact this
-    have hw2 : p2.wid = p0.wid := by have := getNext_wid' p0 e; rw [hg] at this; exact this
-    have hc2 : p2.curr = p0.curr := by have := getNext_curr p0 e; rw [hg] at this; exact this
-    rw [hg] at hn
-    simp only at hn
-    have s2 : SRes p0 e p2 e2 fk := sres_keep c0 ha2 hw2 hc2 hn
-    cases r with
-    | none => exact s2
-    | some j => exact s2.trans (sres_dispatchJob p2 e2 j fk (by rw [hc2]; exact hc0) s2.cpl)
+  have sn := sres_nextJob p0 e fk hc0 c0
+  have pn := prog_nextJob p0 e fk c0
+  have hpa : p0.actor = p.actor := by subst hp0; rfl
+  have hpw : p0.wid = p.wid := by subst hp0; rfl
+  show SRes p e (p0.nextJob e).1 (p0.nextJob e).2 fk
+  exact ⟨sn.actor.trans hpa, sn.wid.trans hpw, sn.cpl, by rw [← hpa]; exact sn.env, fun _ => pn⟩
 
 /-! ## The world invariant -/
 
-structure Core (fk : Nat → List Nat) (w : W) : Prop where
+structure CoreE (ex : List Nat) (fk : Nat → List Nat) (w : W) : Prop where
   slot : PoolAll SlotOk w
   nodupW : NodupW w.pool
   aidLt : ∀ aid a, w.env.getActor aid = some a → aid < w.nextAid
@@ -340,10 +452,16 @@ structure Core (fk : Nat → List Nat) (w : W) : Prop where
   free : ∀ aid a, w.env.getActor aid = some a → a.alive = true → (∀ p ∈ w.pool, p.actor ≠ aid) →
     a.heldJobs = [] ∧ a.stopReq = true
   fin : ∀ wid, (∀ p ∈ w.pool, p.wid ≠ wid) → fk wid = []
+  /-- (progress) queued jobs wait behind a job in flight, or behind a death still to be handled; `ex`: the slot
+  whose worker is being replaced right now -/
+  prog : ∀ p ∈ w.pool, p.wid ∉ ex → Prog p w.env
+
+/-- the invariant between two steps of the factory -/
+abbrev Core (fk : Nat → List Nat) (w : W) : Prop := CoreE [] fk w
 
 theorem Core.of_eq {fk : Nat → List Nat} {w w' : W} (h : Core fk w) (h1 : w'.pool = w.pool) (h2 : w'.byActor = w.byActor)
     (h3 : w'.nextAid = w.nextAid) (h4 : EnvEq w.env w'.env) : Core fk w' := by
-  refine ⟨h.slot.of_pool h1, by rw [h1]; exact h.nodupW, ?_, ?_, ?_, ?_, ?_, ?_, ?_⟩
+  refine ⟨h.slot.of_pool h1, by rw [h1]; exact h.nodupW, ?_, ?_, ?_, ?_, ?_, ?_, ?_, ?_⟩
   · intro aid a ha; rw [h3]; rw [h4.getActor] at ha; exact h.aidLt aid a ha
   · intro aid ha; rw [h4.sup] at ha; rw [h4.getActor]; exact h.supDead aid ha
   · intro p hp; rw [h1] at hp; rw [h2]; exact h.by1 p hp
@@ -351,9 +469,11 @@ theorem Core.of_eq {fk : Nat → List Nat} {w w' : W} (h : Core fk w) (h1 : w'.p
   · intro p hp; rw [h1] at hp; exact (h.sa p hp).keep rfl rfl rfl (h4.getActor _) h4.sup
   · intro aid a ha hal hn; rw [h4.getActor] at ha; rw [h1] at hn; exact h.free aid a ha hal hn
   · intro wid hn; rw [h1] at hn; exact h.fin wid hn
+  · intro p hp hne; rw [h1] at hp
+    exact (h.prog p hp hne).keep rfl rfl id (fun a g d => ⟨a, by rw [h4.getActor]; exact g, d⟩)
 
 /-- two slots never share an actor -/
-theorem Core.actor_inj {fk : Nat → List Nat} {w : W} (h : Core fk w) {p q : WP} (hp : p ∈ w.pool) (hq : q ∈ w.pool)
+theorem CoreE.actor_inj {ex : List Nat} {fk : Nat → List Nat} {w : W} (h : CoreE ex fk w) {p q : WP} (hp : p ∈ w.pool) (hq : q ∈ w.pool)
     (ha : p.actor = q.actor) : p = q := by
   obtain ⟨a, g, hw, _, _⟩ := h.sa p hp
   obtain ⟨b, g', hw', _, _⟩ := h.sa q hq
@@ -393,8 +513,9 @@ theorem mem_removeW_of_ne {pool : List WP} {wid : Nat} {x : WP} (hx : x ∈ pool
       · exact h
 
 /-- a `WorkerProperties` function ran on slot `wid`; `fk'` may differ from `fk` at `wid` only -/
-theorem core_slotUpdate {fk fk' : Nat → List Nat} {w w' : W} {wid : Nat} {p p' : WP} (h : Core fk w)
-    (hg : getW w.pool wid = some p) (r : SRes p w.env p' w'.env (fk' wid)) (hso : SlotOk p')
+theorem core_slotUpdate {ex : List Nat} {fk fk' : Nat → List Nat} {w w' : W} {wid : Nat} {p p' : WP} (h : CoreE ex fk w)
+    (hex : ∀ x ∈ ex, x = wid)
+    (hg : getW w.pool wid = some p) (r : SRes p w.env p' w'.env (fk' wid)) (hso : SlotOk p') (hp' : Prog p' w'.env)
     (hagree : ∀ x, x ≠ wid → fk' x = fk x)
     (h1 : w'.pool = setW w.pool wid p') (h2 : w'.byActor = w.byActor) (h3 : w'.nextAid = w.nextAid) : Core fk' w' := by
   have hpw : p.wid = wid := getW_wid hg
@@ -408,7 +529,12 @@ theorem core_slotUpdate {fk fk' : Nat → List Nat} {w w' : W} {wid : Nat} {p p'
     subst this; exact hne hpw
   have hmem : ∀ q, q ∈ w'.pool → q = p' ∨ (q ∈ w.pool ∧ q.wid ≠ wid) := by
     intro q hq; rw [h1] at hq; exact mem_setW_ne h.nodupW hg hp'w hq
-  refine ⟨h.slot.setW hso h1, by rw [h1]; exact nodupW_setW hp'w h.nodupW, ?_, ?_, ?_, ?_, ?_, ?_, ?_⟩
+  refine ⟨h.slot.setW hso h1, by rw [h1]; exact nodupW_setW hp'w h.nodupW, ?_, ?_, ?_, ?_, ?_, ?_, ?_, ?_⟩
+  rotate_right
+  · intro q hq _
+    rcases hmem q hq with h' | ⟨h', hne⟩
+    · subst h'; exact hp'
+    · exact (h.prog q h' (fun hin => hne (hex _ hin))).keep rfl rfl id (fun a g d => r.env.dead _ a g d)
   · intro aid a ha
     rw [h3]
     by_cases hb : aid = p.actor
@@ -573,7 +699,13 @@ theorem core_die {fk : Nat → List Nat} {w w' : W} (h : Core fk w) (aid : Nat)
     obtain ⟨a, g, hal⟩ := this
     obtain ⟨hsup, hoth, a', g', hd', hw'⟩ := die_spec w.env aid a g hal
     rw [← h4] at hsup hoth g'
-    refine ⟨h.slot.of_pool h1, by rw [h1]; exact h.nodupW, ?_, ?_, ?_, ?_, ?_, ?_, ?_⟩
+    refine ⟨h.slot.of_pool h1, by rw [h1]; exact h.nodupW, ?_, ?_, ?_, ?_, ?_, ?_, ?_, ?_⟩
+    rotate_right
+    · intro q hq hne
+      rw [h1] at hq
+      by_cases hqa : q.actor = aid
+      · exact fun _ => Or.inr ⟨a', by rw [hqa]; exact g', hd'⟩
+      · exact (h.prog q hq hne).keep rfl rfl id (fun x gx d => ⟨x, by rw [hoth _ hqa]; exact gx, d⟩)
     · intro b x hb
       rw [h3]
       by_cases hba : b = aid
@@ -630,7 +762,11 @@ theorem core_removeSlot {fk : Nat → List Nat} {w w' : W} {wid : Nat} {p : WP} 
     subst this; exact hne hpw
   have hmem : ∀ q, q ∈ w'.pool → q ∈ w.pool ∧ q.wid ≠ wid := by
     intro q hq; rw [h1] at hq; exact mem_removeW_ne h.nodupW hq
-  refine ⟨h.slot.removeW h1, by rw [h1]; exact nodupW_removeW wid h.nodupW, ?_, ?_, ?_, ?_, ?_, ?_, ?_⟩
+  refine ⟨h.slot.removeW h1, by rw [h1]; exact nodupW_removeW wid h.nodupW, ?_, ?_, ?_, ?_, ?_, ?_, ?_, ?_⟩
+  rotate_right
+  · intro q hq hne
+    obtain ⟨hq1, _⟩ := hmem q hq
+    exact (h.prog q hq1 hne).keep rfl rfl id (fun a g d => st.dead _ a g d)
   · intro aid x ha
     rw [h3]
     by_cases hb : aid = p.actor
@@ -707,7 +843,15 @@ theorem core_addSlot {fk : Nat → List Nat} {w w' : W} {wid : Nat} {d : Option 
   have hp0w : p0.wid = wid := by subst hp0; rfl
   have hp0a : p0.actor = w.nextAid := by subst hp0; rfl
   have hp0c : p0.curr = [] := by subst hp0; rfl
-  refine ⟨?_, ?_, ?_, ?_, ?_, ?_, ?_, ?_, ?_⟩
+  refine ⟨?_, ?_, ?_, ?_, ?_, ?_, ?_, ?_, ?_, ?_⟩
+  rotate_right
+  · intro q hq hne
+    rw [h1] at hq
+    rcases List.mem_append.mp hq with hq | hq
+    · exact (h.prog q hq hne).keep rfl rfl id
+        (fun a g d => ⟨a, by rw [h4]; exact getActor_spawn_old _ _ _ _ _ g, d⟩)
+    · simp only [List.mem_singleton] at hq; subst hq
+      exact Prog.of_mq (by subst hp0; rfl)
   · intro q hq
     rw [h1] at hq
     rcases List.mem_append.mp hq with hq | hq
@@ -795,7 +939,8 @@ theorem core_routeInner (w : W) (j : Job) (hint : Option Nat) (h : Core fk w) : 
         cases he : p.enqueueJob w1.env j with
         | mk p' e' =>
           rw [he] at r hso
-          exact core_slotUpdate (w' := { w1 with pool := setW w1.pool wid p', env := e' }) h1 hg r hso
+          have hp := r.prog (h1.prog p (getW_mem hg) (by simp))
+          exact core_slotUpdate (w' := { w1 with pool := setW w1.pool wid p', env := e' }) h1 (fun _ hx => by cases hx) hg r hso hp
             (fun _ _ => rfl) rfl rfl rfl
 
 theorem core_routeLimited (w : W) (j : Job) (hint : Option Nat) (h : Core fk w) : Core fk (w.routeLimited j hint).2 := by
@@ -906,13 +1051,14 @@ theorem slotOk_draining (p : WP) (b : Bool) (h : SlotOk p) : SlotOk { p with dra
 
 /-- a slot's flags / settings change (nothing the coupling looks at) -/
 theorem core_setFlags {w w' : W} {wid : Nat} {p p' : WP} (h : Core fk w) (hg : getW w.pool wid = some p)
-    (ha : p'.actor = p.actor) (hw : p'.wid = p.wid) (hc : p'.curr = p.curr) (hso : SlotOk p')
+    (ha : p'.actor = p.actor) (hw : p'.wid = p.wid) (hc : p'.curr = p.curr) (hm : p'.mq = p.mq) (hso : SlotOk p')
     (h1 : w'.pool = setW w.pool wid p') (h2 : w'.byActor = w.byActor) (h3 : w'.nextAid = w.nextAid)
     (h4 : EnvEq w.env w'.env) : Core fk w' := by
   have hpw : p.wid = wid := getW_wid hg
   have r : SRes p w.env p' w'.env (fk wid) :=
-    sres_keep (by rw [← hpw]; exact h.sa p (getW_mem hg)) ha hw hc h4
-  exact core_slotUpdate h hg r hso (fun _ _ => rfl) h1 h2 h3
+    sres_keep (by rw [← hpw]; exact h.sa p (getW_mem hg)) ha hw hc h4 (by rw [hm]; exact id)
+  exact core_slotUpdate h (fun _ hx => by cases hx) hg r hso (r.prog (h.prog p (getW_mem hg) (by simp)))
+    (fun _ _ => rfl) h1 h2 h3
 
 theorem core_growOne (w : W) (wid : Nat) (h : Core fk w) : Core fk (w.growOne wid) := by
   unfold W.growOne
@@ -920,7 +1066,7 @@ theorem core_growOne (w : W) (wid : Nat) (h : Core fk w) : Core fk (w.growOne wi
   · rename_i p hg
     dsimp only
     have h1 : Core fk { w with pool := setW w.pool wid { p with draining := false } } :=
-      core_setFlags (p' := { p with draining := false }) h hg rfl rfl rfl (slotOk_inv.draining p false (h.slot p (getW_mem hg))) rfl rfl rfl (EnvEq.refl _)
+      core_setFlags (p' := { p with draining := false }) h hg rfl rfl rfl rfl (slotOk_inv.draining p false (h.slot p (getW_mem hg))) rfl rfl rfl (EnvEq.refl _)
     split
     · exact h1.frame (availChange_frame _ _ _).act
     · exact h1
@@ -954,7 +1100,7 @@ theorem core_shrinkOne (w : W) (wid : Nat) (h : Core fk w) : Core fk (w.shrinkOn
   split
   · rename_i p hg
     split
-    · exact core_setFlags (p' := { p with draining := true }) h hg rfl rfl rfl (slotOk_inv.draining p true (h.slot p (getW_mem hg))) rfl rfl rfl (EnvEq.refl _)
+    · exact core_setFlags (p' := { p with draining := true }) h hg rfl rfl rfl rfl (slotOk_inv.draining p true (h.slot p (getW_mem hg))) rfl rfl rfl (EnvEq.refl _)
     · rename_i hnw
       have hf := (availChange_frame w wid false)
       have h1 : Core fk (w.availChange wid false) := h.frame hf.act
@@ -1028,7 +1174,8 @@ theorem core_workerFinishedJob (w : W) (who key : Nat) (h : Core (fkCons fk who 
       rw [hwc] at r hso
       simp only at r hso ⊢
       have h1 : Core fk { w with pool := setW w.pool who p', env := e' } :=
-        core_slotUpdate (w' := { w with pool := setW w.pool who p', env := e' }) h hg r hso
+        core_slotUpdate (w' := { w with pool := setW w.pool who p', env := e' }) h (fun _ hx => by cases hx) hg r hso
+          (r.prog (h.prog p hpm (by simp)))
           (fun x hx => by simp [fkCons, hx]) rfl rfl rfl
       have hg1 : getW (setW w.pool who p') who = some p' := getW_setW_same hg (r.wid.trans hpw)
       split
@@ -1066,10 +1213,15 @@ theorem core_calcRest (w : W) (h : Core fk w) : Core fk w.calcRest := by
 
 /-- every record gets new settings / a new handler: nothing the coupling looks at -/
 theorem core_mapPool {w w' : W} (f : WP → WP) (h : Core fk w) (ha : ∀ p, (f p).actor = p.actor) (hw : ∀ p, (f p).wid = p.wid)
-    (hc : ∀ p, (f p).curr = p.curr) (hso : ∀ p, SlotOk p → SlotOk (f p))
+    (hc : ∀ p, (f p).curr = p.curr) (hm : ∀ p, (f p).mq = p.mq) (hso : ∀ p, SlotOk p → SlotOk (f p))
     (h1 : w'.pool = w.pool.map f) (h2 : w'.byActor = w.byActor) (h3 : w'.nextAid = w.nextAid)
     (h4 : EnvEq w.env w'.env) : Core fk w' := by
-  refine ⟨?_, ?_, ?_, ?_, ?_, ?_, ?_, ?_, ?_⟩
+  refine ⟨?_, ?_, ?_, ?_, ?_, ?_, ?_, ?_, ?_, ?_⟩
+  rotate_right
+  · intro x hx hne; rw [h1] at hx
+    obtain ⟨y, hy, rfl⟩ := List.mem_map.mp hx
+    exact (h.prog y hy (by rw [← hw y]; exact hne)).keep (ha y) (hc y) (by rw [hm y]; exact id)
+      (fun a g d => ⟨a, by rw [h4.getActor]; exact g, d⟩)
   · intro x hx; rw [h1] at hx
     obtain ⟨y, hy, rfl⟩ := List.mem_map.mp hx
     exact hso y (h.slot y hy)
@@ -1105,7 +1257,7 @@ theorem core_updateSettings (w : W) (d : Option (Option (Nat × Mode))) (n : Opt
     | none => exact h
     | some d =>
       exact core_mapPool (fun p => { p with disc := w.workerDiscard d }) h (fun _ => rfl) (fun _ => rfl) (fun _ => rfl)
-        (fun p hp => slotOk_inv.disc p _ hp) rfl rfl rfl (EnvEq.refl _)
+        (fun _ => rfl) (fun p hp => slotOk_inv.disc p _ hp) rfl rfl rfl (EnvEq.refl _)
   cases n with
   | none => exact h1
   | some n => exact core_resizePool _ n h1
@@ -1136,40 +1288,16 @@ theorem core_afterReplace (w : W) (wid : Nat) (h : Core fk w) : Core fk (w.after
 
 /-! ## Worker replacement -/
 
-/-- the tail shared by `worker_complete` and `replace_worker`: hand the next queued job over -/
-def WP.nextJob (p : WP) (e : Env) : WP × Env :=
-  match p.getNext e with
-  | (some j, p, e) => p.dispatchJob e j
-  | (none, p, e) => (p, e)
-
-theorem sres_nextJob (p0 : WP) (e : Env) (fk : List Nat) (hc0 : p0.curr = []) (c0 : Cpl p0 e fk) :
-    SRes p0 e (p0.nextJob e).1 (p0.nextJob e).2 fk := by
-  unfold WP.nextJob
-  have hn := envEq_getNext p0 e
-  cases hg : p0.getNext e with
-  | mk r pe =>
-    obtain ⟨p2, e2⟩ := pe
-    have ha2 : p2.actor = p0.actor := by have := getNext_actor p0 e; rw [hg] at this; exact this
-    have hw2 : p2.wid = p0.wid := by have := getNext_wid' p0 e; rw [hg] at this; exact this
-    have hc2 : p2.curr = p0.curr := by have := getNext_curr p0 e; rw [hg] at this; exact this
-    rw [hg] at hn
-    simp only at hn
-    have s2 : SRes p0 e p2 e2 fk := sres_keep c0 ha2 hw2 hc2 hn
-    cases r with
-    | none => exact s2
-    | some j => exact s2.trans (sres_dispatchJob p2 e2 j fk (by rw [hc2]; exact hc0) s2.cpl)
-
-theorem replaceWorker_eq (p : WP) (e : Env) (naid : Nat) :
-    p.replaceWorker e naid =
-      WP.nextJob { p with curr := [], pending := p.curr.foldl (fun acc x => acc.erase x.1) p.pending, actor := naid } e := rfl
-
 /-- the supervision event of actor `who` is taken from the queue; no slot refers to it -/
 theorem core_dropSup {w0 w : W} {who : Nat} {rest : List Nat} (h : Core fk w0) (hs : w0.env.sup = who :: rest)
     (hno : ∀ p ∈ w0.pool, p.actor ≠ who)
     (h1 : w.pool = w0.pool) (h2 : w.byActor = w0.byActor) (h3 : w.nextAid = w0.nextAid)
     (h4 : w.env.actors = w0.env.actors) (h5 : w.env.sup = rest) : Core fk w := by
   have hga : ∀ b, w.env.getActor b = w0.env.getActor b := fun b => by unfold Env.getActor; rw [h4]
-  refine ⟨h.slot.of_pool h1, by rw [h1]; exact h.nodupW, ?_, ?_, ?_, ?_, ?_, ?_, ?_⟩
+  refine ⟨h.slot.of_pool h1, by rw [h1]; exact h.nodupW, ?_, ?_, ?_, ?_, ?_, ?_, ?_, ?_⟩
+  rotate_right
+  · intro p hp hne; rw [h1] at hp
+    exact (h.prog p hp hne).keep rfl rfl id (fun a g d => ⟨a, by rw [hga]; exact g, d⟩)
   · intro aid a ha; rw [h3]; rw [hga] at ha; exact h.aidLt aid a ha
   · intro aid ha; rw [h5] at ha; rw [hga]; exact h.supDead aid (by rw [hs]; exact List.mem_cons_of_mem _ ha)
   · intro p hp; rw [h1] at hp; rw [h2]; exact h.by1 p hp
@@ -1194,7 +1322,7 @@ theorem core_replace {w0 w1 : W} {who wid : Nat} {rest : List Nat} {p p1 : WP} (
     (h1 : w1.pool = setW w0.pool wid p1)
     (h2 : w1.byActor = w0.byActor.filter (fun (x : Nat × Nat) => x.1 != who) ++ [(w0.nextAid, wid)])
     (h3 : w1.nextAid = w0.nextAid + 1)
-    (h4 : w1.env = ({ w0.env with sup := rest } : Env).spawn wid w0.nextAid) : Core fk w1 := by
+    (h4 : w1.env = ({ w0.env with sup := rest } : Env).spawn wid w0.nextAid) : CoreE [wid] fk w1 := by
   have hpw : p.wid = wid := getW_wid hg
   have hp1w : p1.wid = wid := hw1.trans hpw
   have hpm : p ∈ w0.pool := getW_mem hg
@@ -1221,7 +1349,12 @@ theorem core_replace {w0 w1 : W} {who wid : Nat} {rest : List Nat} {p p1 : WP} (
     intro q hq; rw [h1] at hq; exact mem_setW_ne h.nodupW hg hp1w hq
   have hold : ∀ b x, w0.env.getActor b = some x → w1.env.getActor b = some x := by
     intro b x hb; rw [h4]; exact getActor_spawn_old _ _ _ _ _ (by rw [hga0]; exact hb)
-  refine ⟨h.slot.setW hso h1, by rw [h1]; exact nodupW_setW hp1w h.nodupW, ?_, ?_, ?_, ?_, ?_, ?_, ?_⟩
+  refine ⟨h.slot.setW hso h1, by rw [h1]; exact nodupW_setW hp1w h.nodupW, ?_, ?_, ?_, ?_, ?_, ?_, ?_, ?_⟩
+  rotate_right
+  · intro q hq hne
+    rcases hmem q hq with h' | ⟨h', _⟩
+    · subst h'; exact absurd (List.mem_singleton.mpr hp1w) hne
+    · exact (h.prog q h' (by simp)).keep rfl rfl id (fun x gx d => ⟨x, hold _ x gx, d⟩)
   · intro b x hb
     rw [h4] at hb; rw [h3]
     rcases getActor_spawn_inv _ _ _ _ _ hb with hb | ⟨_, hb, _⟩
@@ -1349,7 +1482,7 @@ theorem core_handleSupervisorEvt (w0 : W) (who : Nat) (rest : List Nat) (h : Cor
           simp only [hk, if_false, hy, Bool.false_eq_true] at this ⊢; omega
     generalize he1 : (({ w0.env with sup := rest } : Env).spawn wid w0.nextAid) = e1
     -- the world with the fresh actor installed, before the next queued job is handed over
-    have hc1 : Core fk { w0 with
+    have hc1 : CoreE [wid] fk { w0 with
         nextAid := w0.nextAid + 1, env := e1, pool := setW w0.pool wid p1
         byActor := w0.byActor.filter (fun (y : Nat × Nat) => y.1 != x) ++ [(w0.nextAid, wid)] } :=
       core_replace h hs hg hpa hp1w hp1a hp1c hso1 rfl rfl rfl he1.symm
@@ -1362,14 +1495,16 @@ theorem core_handleSupervisorEvt (w0 : W) (who : Nat) (rest : List Nat) (h : Cor
     have hso' : SlotOk (p1.nextJob e1).1 := by
       have := slotOk_inv.replace p e1 w0.nextAid (h.slot p hpm)
       rw [replaceWorker_eq, hp1] at this; exact this
+    have pn := prog_nextJob p1 e1 (fk wid) hcp1
     cases hnj : p1.nextJob e1 with
     | mk p' e' =>
-      rw [hnj] at r hso'
+      rw [hnj] at r hso' pn
       simp only at r hso' ⊢
       apply core_afterReplace
       refine core_slotUpdate (w := { w0 with
         nextAid := w0.nextAid + 1, env := e1, pool := setW w0.pool wid p1
-        byActor := w0.byActor.filter (fun (y : Nat × Nat) => y.1 != x) ++ [(w0.nextAid, wid)] }) hc1 hg1 r hso'
+        byActor := w0.byActor.filter (fun (y : Nat × Nat) => y.1 != x) ++ [(w0.nextAid, wid)] }) hc1
+        (fun y hy => by simpa using hy) hg1 r hso' pn
         (fun _ _ => rfl) ?_ rfl rfl
       exact (setW_setW w0.pool wid p1 p' (hp1w.trans hpw')).symm
 
@@ -1415,7 +1550,7 @@ theorem core_handleMsg (w : W) (m : FMsg) (rest : List FMsg) (h : Core (fkOf (m 
   | updateSettings d n => exact core_updateSettings w d n h
   | setHandler hd =>
     exact core_mapPool (fun p => { p with handler := hd }) (fk := fkOf rest) h (fun _ => rfl) (fun _ => rfl) (fun _ => rfl)
-      (fun p hp => slotOk_inv.handler p _ hp) rfl rfl rfl (envEq_emit _ _)
+      (fun _ => rfl) (fun p hp => slotOk_inv.handler p _ hp) rfl rfl rfl (envEq_emit _ _)
   | drainRequests => exact Core.frame (fk := fkOf rest) h ⟨rfl, rfl, rfl, envEq_emit _ _⟩
   | calculate =>
     show Core (fkOf rest) (if w.cfg.hasCC && w.armed then { w with armed := false, blocked := true } else w.calcRest)
@@ -1495,7 +1630,16 @@ theorem core_actorSame {w w' : W} {a a' : Actor} (h : Core fk w) (g : w.env.getA
   have gs := getActor_setActor_self w.env a a' g
   have hga : ∀ b, w'.env.getActor b = (w.env.setActor a').getActor b := fun b => h4.getActor b
   have hsup : w'.env.sup = w.env.sup := h4.sup.trans st.sup
-  refine ⟨h.slot.of_pool h1, by rw [h1]; exact h.nodupW, ?_, ?_, ?_, ?_, ?_, ?_, ?_⟩
+  refine ⟨h.slot.of_pool h1, by rw [h1]; exact h.nodupW, ?_, ?_, ?_, ?_, ?_, ?_, ?_, ?_⟩
+  rotate_right
+  · intro q hq hne
+    rw [h1] at hq
+    by_cases hqa : q.actor = a'.aid
+    · refine (h.prog q hq hne).keep rfl rfl id ?_
+      intro x gx d
+      rw [hqa, g] at gx; cases gx
+      exact ⟨a', by rw [hga, hqa]; exact gs, hal.trans d⟩
+    · exact (h.prog q hq hne).keep rfl rfl id (fun x gx d => ⟨x, by rw [hga, st.other _ hqa]; exact gx, d⟩)
   · intro b x hb
     rw [h3]; rw [hga] at hb
     by_cases hba : b = a'.aid
@@ -1752,7 +1896,16 @@ theorem j_finish (w : W) (aid : Nat) (ok : Bool) (h : J w) : J (w.finish aid ok)
                 · subst hx; simp
                 · have : (a.wid == x) = false := by simp; exact fun h => hx h.symm
                   simp [this, hx]
-              refine ⟨h.slot.of_pool rfl, h.nodupW, ?_, ?_, h.by1, h.by2, ?_, ?_, ?_⟩
+              refine ⟨h.slot.of_pool rfl, h.nodupW, ?_, ?_, h.by1, h.by2, ?_, ?_, ?_, ?_⟩
+              rotate_right
+              · intro q hq hne
+                simp only at hq ⊢
+                by_cases hqa : q.actor = aid
+                · refine (h.prog q hq hne).keep rfl rfl id ?_
+                  intro x gx d
+                  rw [hqa, g] at gx; cases gx
+                  rw [hal] at d; cases d
+                · exact (h.prog q hq hne).keep rfl rfl id (fun x gx d => ⟨x, by rw [hoth _ hqa]; exact gx, d⟩)
               · intro b y hb
                 by_cases hba : b = aid
                 · subst hba; exact h.aidLt _ a g
@@ -1905,7 +2058,9 @@ theorem j_init (c : CaseCfg) : J (init c) := by
   have hi0 : w0.inbox = [] := by subst hw0; rfl
   have h0 : Core (fkOf []) w0 := by
     subst hw0
-    refine ⟨?_, List.nodup_nil, ?_, ?_, ?_, ?_, ?_, ?_, ?_⟩
+    refine ⟨?_, List.nodup_nil, ?_, ?_, ?_, ?_, ?_, ?_, ?_, ?_⟩
+    rotate_right
+    · intro p hp; cases hp
     · intro p hp; cases hp
     · intro aid a ha; simp [Env.getActor] at ha
     · intro aid ha; cases ha
